@@ -218,6 +218,13 @@ class Sched:
                         break
         if nxt is not None:
             pass
+        elif self.strategy == 'ops':
+            # whole operations in random order: a client keeps running until it is about to start its next call
+            # (or cannot go on); every pair of calls is then ordered in real time
+            if cur_ok and cur.label != 'call':
+                nxt = cur
+            else:
+                nxt = self.rng.choice(run)
         elif self.strategy in ('random', 'chase'):
             nxt = self.rng.choice(run)
         elif self.strategy == 'roundrobin':
@@ -259,6 +266,11 @@ class Recorder:
 
     def call(self, client, op, args, fn, kw=None):
         c = self.sched._me()
+        if c is not None:
+            # a scheduling point between two calls of one client: without it a call is already "in flight" while the
+            # client waits at its first statement, and no other client's call could ever lie wholly between two
+            # consecutive calls of this one (real-time precedence edges would be missing from every history)
+            self.sched.gate('call')
         rec = {'client': client, 'op': op, 'args': args, 'kw': kw or {}, 'call': self.sched.now(),
                'ret': None, 'kind': None, 'result': None, 't0': self.sched.clock.now_peek(), 't1': None}
         with self.lock:
